@@ -24,7 +24,7 @@ import numpy as np
 from vmon import canon, gen
 from vmon.res import exc_name
 
-ID_NAMES = ["c0", "c1", "c2", "c3", "c4", "k", "x", "y"]
+ID_NAMES = ["c0", "c1", "c2", "c3", "c4", "k", "x", "y", "_tmp_", "_k"]
 ODD_NAMES = ["a b", "1x", "items", "count", "sort", "nrow", "keys", "update", "values",
              # names of class-level attributes (not methods) of the frame class, and the empty name
              "COLUMN_PLACEHOLDER", "ATTRIBUTES", "ncol", "columns", "",
